@@ -315,6 +315,30 @@ def main(tier):
                 if pre != "x" * 250 or not quick:
                     jobs.append(("dconv", ["-f", pre + s, "2012-03-06T10:11:12"], None, "format"))
                     jobs.append(("dadd", ["-f", pre + s, "2012-03-06T10:11:12", "+1d"], None, "format"))
+        # locale names: lines of the locale file itself (a data line is a whole line too), its last lines, hostile strings
+        loclines = open(env["LOCALE_FILE"], encoding="utf-8", errors="replace").read().split("\n")
+        cand = loclines[1:6] + loclines[-6:] + [loclines[5] + "x", "de_DE\n", "", "\t", "de_DE\tx"] + hostile[:40]
+        for nm in cand:
+            if "\0" in nm:
+                continue
+            jobs.append(("dconv", ["--locale", nm, "-f", "%A %B %a %b", "2012-05-05"], None, "locale name"))
+            jobs.append(("dconv", ["--from-locale", nm, "-i", "%d %B %Y", "5 May 2012"], None, "locale name"))
+            jobs.append(("dadd", ["--from-locale", nm, "--locale", nm, "-f", "%A", "2012-05-05", "+1d"], None, "locale name"))
+        # sed mode on lines where values touch each other or the line start (the scanner's look-behind window must not leave the line):
+        # whatever is matched, a run writes at most the line plus one output buffer per value, and no byte from outside the line
+        adj = [("%H:%M:%S", "%T", ["1:15:00", "10:20:30"]), ("%d.%m.%Y", "%F", ["1.2.2012", "3.4.2013", "11.12.2014"]), ("%m/%d/%Y", "%F", ["1/2/2012", "11/30/2014"]),
+               ("%-d-%b-%Y", "%F", ["1-Mar-2012", "21-Dec-2013"]), ("%Y-%m-%d", "%a", ["2012-03-04", "2013-12-31"]), ("%j/%Y", "%F", ["64/2012", "365/2013"])]
+        for ifmt, ofmt, vals in adj:
+            lines = []
+            for a in vals:
+                lines += [a, a + a, "x" + a, a + "x", a + " " + a]
+                for b2 in vals:
+                    lines += [a + b2, a + b2 + a, b2 + a + "\t" + a + b2]
+            text = "\n".join(lines) + "\n"
+            for tname, targs in (("dconv", ["-S", "-i", ifmt, "-f", ofmt]), ("dadd", ["-S", "-i", ifmt, "-f", ofmt, "+1d" if "H" not in ifmt else "+1h"]),
+                                 ("dround", ["-S", "-i", ifmt, "-f", ofmt, "+1d" if "H" not in ifmt else "/1h"])):
+                jobs.append((tname, targs, text, "sed mode, touching values"))
+                jobs.append((tname, targs, text.replace("\n", "\r\n"), "sed mode, touching values"))
         # backslash escapes (-e): formats ending in a backslash or in an incomplete escape
         for s in ["abc\\", "\\", "%F\\", "a\\tb\\", "\\\\\\", "x\\q\\", "%Y\\n%m\\"] + [h for h in hostile[:60]]:
             jobs.append(("dconv", ["-e", "-f", s + ("\\" if not s.endswith("\\") else ""), "2012-03-06T10:11:12"], None, "escaped format"))
@@ -369,6 +393,12 @@ def main(tier):
                 tool, argv, stdin, role, rc, err, out = res
                 nrun += 1
                 bad = rc == 99 or rc == 124 or rc < 0 or rc >= 128
+                if role == "sed mode, touching values" and not bad:
+                    nin = (stdin or "").count("\n")
+                    if b"\0" in out or len(out) > len(stdin or "") + 256 * 4 * max(1, nin) or out.count(b"\n") != nin:
+                        rep.disagree("%s %s: output is not the input lines with values replaced (NUL bytes, size or line count)" % (tool, role),
+                                     {"argv": [repr(a) for a in argv], "in_bytes": len(stdin or ""), "out_bytes": len(out), "in_lines": nin, "out_lines": out.count(b"\n"),
+                                      "nul": b"\0" in out, "rc": rc})
                 if role == "escaped literal" and not bad:
                     # the argv block is contiguous stack memory: a read past the terminator of the format is not a sanitizer event
                     # there, but it shows in the output, which must be the unescaped literal alone
